@@ -66,6 +66,15 @@ def cb_corpus():
                        var("M", [A("regex", "m+", cbk="val_t_match", cb="|lex| match crate::cb::val_t(lex) { n => n } + 400")], "u32"),
                        var("I", [A("regex", "i+", cbk="val_t_if", cb="|lex| if true { crate::cb::val_t(lex) } else { 0 } + 500")], "u32"),
                        var("C", [A("regex", "c+", cbk="val_t_mcall", cb="|lex| match crate::cb::val_t(lex) { n => n }.wrapping_add(600)")], "u32")]})
+    # labelled callbacks whose last path segment is `skip`, `emit`, `filter`, `error`: only the function decides
+    D.append({"id": "cb11", "utf8": True, "logos": E1, "tags": ["role:cb"], "subs": [], "skips": [A("skip", "_+", cbk="skip_res_unit", cb="crate::cb::skipping::skip")],
+              "vars": [var("B", [A("regex", "b+", cbk="unit_bool", cb="crate::cb::named::skip")]),
+                       var("V", [A("regex", "v+", cbk="val_t", cb="crate::cb::valued::skip")], "u32"),
+                       var("W", [A("regex", "[c-e]+", cbk="unit_unit")])]})
+    D.append({"id": "cb12", "utf8": True, "logos": E2, "tags": ["role:cb"], "subs": [], "skips": [],
+              "vars": [var("S", [A("regex", "s+", cbk="unit_skip", cb="crate::cb::named::emit")]),
+                       var("F", [A("regex", "f+", cbk="unit_unit", cb="crate::cb::named::filter")]),
+                       var("O", [A("regex", "o+", cbk="val_opt", cb="crate::cb::valued::error")], "u32")]})
     return D
 
 
